@@ -1,21 +1,132 @@
-(* C19 — property theorems (stage 1: the tree before the fix). *)
-From PV Require Import Lib.Base Cbor.Dec.
-From PV Require Import C19.Model C19.Proofs.
+(* C19 — property theorems only. Statements are pinned by props/C19.json. *)
+From PV Require Import Lib.Base Cbor.Item Cbor.Dec.
+From PV Require Import C19.Model C19.Proofs C19.Fuel.
+From PV Require C18.Model.
 Open Scope Z_scope.
 
+(* An address built from any payload bytes (from_decoded) round-trips through
+   to_vec / from_bytes, with any trailing bytes and any Decoder::skip. *)
+Theorem byron_roundtrip : forall skip p r, bytes_wf p -> len p < 2 ^ 64 ->
+  from_bytes skip (byron_to_vec (from_decoded p) ++ r) = Ok (from_decoded p).
+Proof.
+  intros skip p r Hp Hl. apply from_bytes_roundtrip; [|reflexivity].
+  apply from_decoded_wf; [exact Hp|]. change (2 ^ 64) with 18446744073709551616 in Hl. exact Hl.
+Qed.
+
+(* the same through Address::from_bytes (dispatch on the first byte 0x82 -> parse_type_8) *)
+Theorem byron_roundtrip_address : forall skip p, bytes_wf p -> len p < 2 ^ 64 ->
+  address_from_bytes skip (byron_to_vec (from_decoded p)) =
+  Ok (C18.Model.Byron p (crc32 p)).
+Proof.
+  intros skip p Hp Hl. rewrite address_from_bytes_byron.
+  rewrite <- (app_nil_r (byron_to_vec _)). rewrite byron_roundtrip by assumption. reflexivity.
+Qed.
+
+(* the encoding of a (payload, crc) pair with a wrong checksum is rejected *)
+Theorem byron_rejects_bad_crc : forall skip p c r, bytes_wf p -> len p < 2 ^ 64 -> 0 <= c < 2 ^ 32 ->
+  crc32 p <> c -> from_bytes skip (byron_to_vec (p, c) ++ r) = Err E_BYRON_CBOR.
+Proof.
+  intros skip p c r Hp Hl Hc Hn. apply from_bytes_rejects; [|exact Hn].
+  change (2 ^ 64) with 18446744073709551616 in Hl. change (2 ^ 32) with 4294967296 in Hc.
+  unfold byron_wf. cbn [fst snd]. auto.
+Qed.
+
+(* for ANY input bytes (non-canonical heads, indefinite array, extra elements,
+   trailing bytes, ...): no entry point yields a Byron address with a mismatching checksum *)
+Theorem byron_accepted_implies_crc : forall skip bs a,
+  from_bytes skip bs = Ok a -> crc32 (fst a) = snd a.
+Proof. exact from_bytes_ok_crc. Qed.
+Theorem address_accepted_implies_crc : forall skip bs p c,
+  address_from_bytes skip bs = Ok (C18.Model.Byron p c) -> crc32 p = c.
+Proof. exact address_from_bytes_ok_crc. Qed.
+
+Theorem byron_from_bytes_never_panics : forall skip bs, is_panic (from_bytes skip bs) = false.
+Proof. exact from_bytes_never_panics. Qed.
+
+(* CRC-32: any single-bit error in the payload changes the checksum, and any
+   single-bit error in the checksum changes it (so the verdict always flips) *)
+Theorem crc32_bitflip_detects : forall p i j, bytes_wf p -> (i < length p)%nat -> 0 <= j < 8 ->
+  crc32 (flip_bit p i j) <> crc32 p.
+Proof. exact crc32_flip. Qed.
+
+Theorem byron_single_bit_corruption_rejected : forall skip p r, bytes_wf p -> len p < 2 ^ 64 ->
+  (forall i j, (i < length p)%nat -> 0 <= j < 8 ->
+     from_bytes skip (byron_to_vec (flip_bit p i j, crc32 p) ++ r) = Err E_BYRON_CBOR) /\
+  (forall j, 0 <= j < 32 ->
+     from_bytes skip (byron_to_vec (p, Z.lxor (crc32 p) (2 ^ j)) ++ r) = Err E_BYRON_CBOR).
+Proof.
+  intros skip p r Hp Hl. pose proof (crc32_range p Hp) as Hc. split.
+  - intros i j Hi Hj. apply byron_rejects_bad_crc.
+    + apply flip_bit_wf; assumption.
+    + unfold len in *. rewrite flip_bit_length. exact Hl.
+    + change (2 ^ 32) with 4294967296. exact Hc.
+    + apply crc32_flip; assumption.
+  - intros j Hj. apply byron_rejects_bad_crc; try assumption.
+    + apply lxor_range; [lia|change (2 ^ 32) with 4294967296; exact Hc|].
+      split; [apply Z.pow_nonneg; lia|apply Z.pow_lt_mono_r; lia].
+    + intros E. symmetry in E. revert E. apply crc_value_flip. lia.
+Qed.
+
+(* the fuel of the two derive(Decode) loops is never what makes decoding fail:
+   with a skip that consumes input (minicbor's reads >= 1 byte or fails; so does
+   the skip_item used in the run) any larger fuel gives the same result *)
+Theorem byron_decode_fuel_adequate : forall skip,
+  (forall bs r, skip bs = DOk r -> (length r < length bs)%nat) ->
+  forall f i n fl bs, (length bs < f)%nat ->
+  fields_def skip f i n fl bs = fields_def skip (loop_fuel bs) i n fl bs /\
+  fields_indef skip f i fl bs = fields_indef skip (loop_fuel bs) i fl bs.
+Proof.
+  intros skip Hs f i n fl bs Hf. split.
+  - apply fields_def_fuel; [exact Hs|exact Hf|unfold loop_fuel; lia].
+  - apply fields_indef_fuel; [exact Hs|exact Hf|unfold loop_fuel; lia].
+Qed.
+Theorem skip_item_consumes_input : forall bs r, skip_item bs = DOk r -> (length r < length bs)%nat.
+Proof. exact skip_item_consumes. Qed.
+
+Theorem crc32_is_u32 : forall p, bytes_wf p -> 0 <= crc32 p < 2 ^ 32.
+Proof. intros p H. change (2 ^ 32) with 4294967296. apply crc32_range, H. Qed.
+
+(* PARTIAL (base58 crate is an oracle; its decoder has a fixed 132-byte buffer):
+   given decode (encode bs) = bs for |bs| <= 132, addresses whose encoding is at
+   most 132 bytes round-trip through base58, and nothing accepted from base58
+   has a mismatching checksum.  Longer addresses: known finding (see level_text). *)
+Theorem byron_base58_roundtrip_partial :
+  forall skip (enc : list Z -> list Z) (dec : list Z -> option (list Z)),
+  (forall bs, bytes_wf bs -> len bs <= 132 -> dec (enc bs) = Some bs) ->
+  forall p, bytes_wf p -> len (byron_to_vec (from_decoded p)) <= 132 ->
+  from_base58 skip dec (to_base58 enc (from_decoded p)) = Ok (from_decoded p).
+Proof.
+  intros skip enc dec H p Hp Hl. apply (base58_roundtrip_sec skip enc dec H); [|reflexivity|exact Hl].
+  apply from_decoded_wf; [exact Hp|].
+  assert (len p <= len (byron_to_vec (from_decoded p))); [|lia].
+  unfold byron_to_vec, Cbor.Api.e_bytes, from_decoded. cbn [fst snd]. unfold len. rewrite !app_length. lia.
+Qed.
+Theorem byron_base58_accepted_implies_crc :
+  forall skip (dec : list Z -> option (list Z)) s a, from_base58 skip dec s = Ok a -> crc32 (fst a) = snd a.
+Proof. exact base58_ok_crc. Qed.
+
+(* ---- the tree before commit "fix: reject Byron addresses whose CRC32 ..." ---- *)
 (* mainnet test vector 3 of byron.rs (Ae2tdPwUPEZLs4H...), checksum xor 1 *)
 Definition vector3_payload : list Z :=
   [131;88;28;241;25;57;244;35;56;213;158;33;186;160;134;69;172;31;0;56;213;238;150;159;153;254;152;244;2;254;121;160;0].
 Definition vector3_bad : list Z :=
   [130;216;24;88;33] ++ vector3_payload ++ [26;201;214;78;90].
-
-Theorem byron_bad_crc_refuted :
+Theorem byron_bad_crc_refuted_before_fix :
   exists bs a, from_bytes_unchecked skip_item bs = Ok a /\ crc32 (fst a) <> snd a.
 Proof.
   exists vector3_bad, (vector3_payload, 3386265178). split; [vm_compute; reflexivity|].
   vm_compute. discriminate.
 Qed.
 
+(* ---- non-vacuity ---- *)
 Example crc32_check_value :
   crc32 [49;50;51;52;53;54;55;56;57] = 3421780262 /\ crc32 vector3_payload = 3386265179.
 Proof. split; vm_compute; reflexivity. Qed.
+Example vector3_now_rejected_and_good_accepted :
+  from_bytes skip_item vector3_bad = Err E_BYRON_CBOR /\
+  from_bytes skip_item ([130;216;24;88;33] ++ vector3_payload ++ [26;201;214;78;91]) = Ok (from_decoded vector3_payload) /\
+  bytes_wf vector3_payload /\
+  (* indefinite-length array with a surplus element is still decoded, and still checked *)
+  from_bytes skip_item ([159;216;24;64;0;1;255]) = Ok ([], 0) /\
+  from_bytes skip_item ([159;216;24;64;4;1;255]) = Err E_BYRON_CBOR.
+Proof. repeat split; try (vm_compute; reflexivity). apply bytes_wfb_spec. vm_compute. reflexivity. Qed.
